@@ -89,7 +89,8 @@ Definition sgd_mom (lr mom : Q) (g t p : vec) : vec * vec :=
 
 (* ---- MimeLite: clip by global norm, then aggregate ------------------------------------------------ *)
 (* n is the norm of the delta (a parameter with n*n == sumsq delta in the theorems) *)
-Definition clip_scale (bound n : Q) : Q := if Qeq_bool n 0 then 1 else Qmin 1 (bound / n).
+(* scale = jnp.where(global_norm > max_norm, max_norm / global_norm, 1.) *)
+Definition clip_scale (bound n : Q) : Q := if Qltb bound n then bound / n else 1.
 Definition clip_delta (bound : Q) (d : vec) (n : Q) : vec := vscale (clip_scale bound n) d.
 
 (* a client: (number of examples, delta, norm of delta) *)
